@@ -1172,6 +1172,15 @@ def run_impl(op, opts, e, c, variant=None, via=None, share=False):
             kw["return_message"] = True
     if via is not None and via[0] in ("model", "proto"):
         E, C = via[1], via[2]
+        # an application dumps PART of a model now and then (options passed to that call are its own business): done here on both
+        # operands before every comparison of models, so that a comparison is never the first serialisation call they see
+        for obj in (E, C):
+            try:
+                names = sorted(getattr(obj, "__fields_set__", ()) or obj.__fields__)
+                obj.dict(exclude={names[0]})
+                obj.dict(include={names[-1]})
+            except Exception:  # noqa
+                pass
         r, msg = impl_call(lambda a, b, **k: a.compare(b, **k), E, C, **kw)
     elif via is not None and via[0] == "molrecs":
         kw.pop("quiet", None)
@@ -1937,6 +1946,25 @@ def gen_R_directed(ctx: Ctx):
             o = dict(atol=atol, rtol=rtol, equal_phase=False, forgive=rng.choice([[k1, k1], [k1], ["root." + k1, k1]]))
         if rec_safe(e, c, atol, rtol):
             yield "Rd", make_line("R", o, e, c)
+    # a NaN leaf (bare float, numpy float, array element) at the same place on both sides: the recursive comparison has no
+    # equal_nan request, so it never passes — whether or not the rest agrees, and (shared-objects variant of check_line) whether
+    # or not the two sides are the same Python objects
+    for _ in range(ctx.scale(120, 1200)):
+        atol, rtol = pick_tols(rng, True)
+        x = pick_ref(rng, True)
+        k1, k2 = rng.choice([("a", "b"), ("g", "geom"), ("x", "c")])
+        nanleaf = rng.choice([("F", NAN), ("f", NAN), ("A", "f", [2], [("f", x), ("f", NAN)]), ("L", [("F", x), ("F", NAN)])])
+        other_e = ("F", x)
+        other_c = ("F", rng.choice([x, perturb(rng, x, atol, rtol, "far")]))
+        shape = rng.choice(["flat", "nested"])
+        if shape == "flat":
+            e = ("D", [(k1, nanleaf), (k2, other_e)])
+            c = ("D", [(k1, nanleaf), (k2, other_c)])
+        else:
+            e = ("D", [(k1, ("D", [("n", nanleaf), ("m", ("I", 1))])), (k2, other_e)])
+            c = ("D", [(k1, ("D", [("n", nanleaf), ("m", ("I", 1))])), (k2, other_c)])
+        o = dict(atol=atol, rtol=rtol, equal_phase=False, forgive=rng.choice([None, None, [k2]]))
+        yield "Rnan", make_line("R", o, e, c)
 
 
 
